@@ -3,7 +3,7 @@
 From stdpp Require Import gmap.
 From RecordUpdate Require Import RecordSet.
 From Coq Require Import ZArith NArith List Bool Strings.Byte Strings.String.
-Require Import Regen.Base.Bytes Regen.Base.Calendar Regen.Dec.Dec Regen.Ids.Ids Regen.Generated.IdConsts.
+Require Import Regen.Base.Bytes Regen.Base.Calendar Regen.Dec.Dec Regen.Ids.Ids Regen.Generated.IdConsts Regen.Generated.LedgerConsts.
 Require Import Regen.Ledger.Types Regen.Ledger.Msgs Regen.Ledger.Orm Regen.Ledger.BaseMsgs
                Regen.Ledger.BasketMsgs Regen.Ledger.MarketMsgs.
 Import ListNotations RecordSetNotations.
@@ -22,11 +22,12 @@ Definition is_ok {A} (r : res A) : bool := match r with Ok _ => true | Err _ => 
 Fixpoint no_dup_addrs (l : list addr) : bool :=
   match l with [] => true | a :: l' => negb (existsb (N.eqb a) l') && no_dup_addrs l' end.
 
-Definition max_reference_id_length : N := 32.
-Definition max_reason_len : N := 256.
-Definition max_credit_type_name_length : N := 75.
-Definition credit_type_precision : Z := 6.
-Definition basket_descr_max_len : N := 256.
+(* limits regenerated from the Go source (Generated/LedgerConsts.v) *)
+Definition max_reference_id_length : N := LedgerConsts.max_reference_id_length.
+Definition max_reason_len : N := LedgerConsts.max_reason_len.
+Definition max_credit_type_name_length : N := LedgerConsts.max_credit_type_name_length.
+Definition credit_type_precision : Z := Z.of_N LedgerConsts.credit_type_precision.
+Definition basket_descr_max_len : N := LedgerConsts.basket_descr_max_len.
 
 Definition vb_fee (fee : option coin) : bool :=
   match fee with
@@ -70,8 +71,8 @@ Definition dates_ordered (a c : option ts) : bool :=
 Definition vb_date_criteria (d : date_criteria) : bool :=
   match d with
   | DCNone => true
-  | DCMinStart t => (-2208992400 <=? secs t)
-  | DCWindow ds _ => (24 * 3600 <=? ds)
+  | DCMinStart t => (LedgerConsts.date_criteria_min_start_seconds <=? secs t)
+  | DCWindow ds _ => (LedgerConsts.date_criteria_min_window_seconds <=? ds)
   | DCYears _ => true
   end.
 
